@@ -105,6 +105,17 @@ func (t *toks) sqlArgs() []interface{} {
 			args = append(args, t.str())
 		case "I":
 			args = append(args, t.int())
+		case "NS": // the same text as a valid sql.NullString (a driver.Valuer)
+			args = append(args, sql.NullString{String: t.str(), Valid: true})
+		case "PS": // ... as a *string
+			v := t.str()
+			args = append(args, &v)
+		case "NI": // the same number as a valid sql.NullInt64
+			args = append(args, sql.NullInt64{Int64: int64(t.int()), Valid: true})
+		case "BT":
+			args = append(args, true)
+		case "BF":
+			args = append(args, false)
 		default:
 			fatal("bad arg kind")
 		}
@@ -178,6 +189,9 @@ func sqlCmd(args []string) {
 			datasets[d.id] = d
 		case "RELPATHS":
 			st.rel = t.next() == "on"
+		case "LOADFILE":
+			ds := t.next()
+			st.files[ds] = t.next()
 		case "MISSINGFILE":
 			ds := t.next()
 			p, _ := filepath.Abs(filepath.Join(dir, ds+".updog"))
@@ -311,6 +325,41 @@ func sqlCmd(args []string) {
 				if r == "PANIC" || r == "HANG" {
 					st.dead[h] = true
 				}
+			}
+		case "SQLTX2":
+			// two transactions open at the same time on one handle, each queried, then both committed
+			id, h := t.next(), t.next()
+			text := t.str()
+			db := st.dbs[h]
+			res := withWatchdog(wd, func() string {
+				tx1, err := db.Begin()
+				if err != nil {
+					return "ERR-BEGIN1"
+				}
+				tx2, err := db.Begin()
+				if err != nil {
+					tx1.Rollback()
+					return "ERR-BEGIN2"
+				}
+				var outs []string
+				for _, tx := range []*sql.Tx{tx1, tx2, tx1} {
+					rows, err := tx.Query(text)
+					if err != nil {
+						outs = append(outs, "ERR")
+						continue
+					}
+					outs = append(outs, fmtRows(rows))
+				}
+				if tx2.Commit() != nil || tx1.Commit() != nil {
+					return "ERR-COMMIT"
+				}
+				return strings.Join(outs, " ## ")
+			})
+			for k, part := range strings.Split(res, " ## ") {
+				pr("SQL %s.%d %s\n", id, k, part)
+			}
+			if res == "PANIC" || res == "HANG" {
+				st.dead[h] = true
 			}
 		case "SQLCHURN":
 			// n goroutines, each: sql.Open, one query, Close — iters times, all on one data source
